@@ -172,6 +172,32 @@ def run(run):
                 isinstance(q.get("sub"), list) and any(s_.get("f") == "indirect_jmp_targets" and T.pat_peel(s_["p"]).get("k") != "Wild" for s_ in q["sub"])
                 for pat, scrut, owner in SL.fn_patterns(F, fn) for q in walk_pat(pat))
             run.check("R1", "%s|Blk.indirect_jmp_targets" % label, hit, "%s ignores Blk.indirect_jmp_targets, which the sibling passes treat as block targets" % label, F.loc(fn["body"]))
+        # the block set of a function is the closure of ALL blocks listed in the Sub (a block that is not reachable from the
+        # entry block can still jump into another function's block, which must then be duplicated too)
+        from .lib import bindsrc as B
+        from .lib import iterctx as IC
+        f_map = F.fn("generate_sub_tid_to_contained_block_tids_map", adt="Project")
+        pops = [x for x in T.walk_fn(F, f_map) if T.is_call(x, ("pop", "pop_front", "pop_back", "pop_last")) and x.get("a")]
+        key = "generate_sub_tid_to_contained_block_tids_map|search-starts-from-all-blocks"
+        if not pops:
+            run.undecided("R1", key, "no worklist found", F.loc(f_map["body"]))
+        else:
+            wid = T.root_var_id(pops[0]["a"][0])
+            src, how = B.binder(f_map["body"], wid)
+            if src is None:
+                run.undecided("R1", key, "initialisation of the worklist not found", F.loc(f_map["body"]))
+            else:
+                srcs = B.sources(F, B.bodies(F, f_map), src)
+                reads_blocks = any(x.get("k") == "Field" and x.get("fn") == "blocks" for e_, h_ in srcs for x in B.walk_with_closures(F, e_))
+                cut = [x["n"] for e_, h_ in srcs for x in B.walk_with_closures(F, e_) if T.is_call(x, IC.RESTRICT) or (x.get("k") == "Index") or T.is_call(x, ("index", "get"))]
+                # blocks pushed onto an initially empty worklist in a loop over sub.term.blocks also count
+                seeded_in_loop = any(T.is_call(x, ("push", "extend", "push_back")) and x.get("a") and T.root_var_id(x["a"][0]) == wid and any(y.get("k") == "Field" and y.get("fn") == "blocks" for c_ in IC.contexts(F, f_map, x) for y in T.walk(c_)) for x in T.walk_fn(F, f_map))
+                if (reads_blocks and not cut) or seeded_in_loop:
+                    run.holds("R1", key, "", F.loc(src))
+                elif reads_blocks and cut:
+                    run.violated("R1", key, "the search for the blocks of a function must start from every block listed in the Sub; it starts from a restricted selection (%s): a listed block that is not reachable from there is not followed, and a block of another function it jumps into is renamed but never duplicated" % cut, F.loc(src))
+                else:
+                    run.undecided("R1", key, "the worklist is not initialised from sub.term.blocks", F.loc(src))
         # remove_references_to_nonexisting_tids applies both repairs to every block / jump
         fn = F.fn("remove_references_to_nonexisting_tids", adt="Project")
         t = S.Sym(F).term(fn["body"])
